@@ -469,6 +469,15 @@ class Gen:
                 ch.coin(o["i18n"]):
             el["translate"] = True
             is_tr = True
+        if o["i18n"] and not self.in_fill and fill_slot is None and \
+                ch.coin(0.5 * o["i18n"]):
+            # the translation domain / context of everything inside
+            # (not in slot content: there the conversion helpers are
+            # closures of the defining function and read *its* settings,
+            # an i18n matter - observation O9)
+            self.nvar += 1
+            el[ch.pick(["i18n_domain", "i18n_context"])] = \
+                "d%d" % self.nvar
         if name_in and not in_switch and fill_slot is None and \
                 not el["define_macro"] and ch.coin(0.6):
             self.nvar += 1
@@ -501,8 +510,9 @@ class Gen:
         stmts = [s for s in ("define", "condition", "repeat", "switch", "case",
                              "content", "replace", "omit", "attributes",
                              "on_error", "define_macro", "define_slot",
-                             "fill_slot", "translate", "i18n_name")
-                 if el[s] not in (None, [])]
+                             "fill_slot", "translate", "i18n_name",
+                             "i18n_domain", "i18n_context")
+                 if el.get(s) not in (None, [])]
         el["order"] = ch.shuffle(stmts)
         if is_macro:
             self.complete_macros.append(self.macro_stack.pop())
@@ -733,6 +743,10 @@ class Ser:
                 self.w(self.sp() + 'i18n:translate=""')
             elif s == "i18n_name":
                 self.w(self.sp() + 'i18n:name="%s"' % n[s])
+            elif s == "i18n_domain":
+                self.w(self.sp() + 'i18n:domain="%s"' % n[s])
+            elif s == "i18n_context":
+                self.w(self.sp() + 'i18n:context="%s"' % n[s])
             elif s == "define_macro":
                 self.w(self.sp() + 'metal:define-macro="%s"' % n[s])
             elif s == "define_slot":
